@@ -202,6 +202,19 @@ impl RawTableInner {
     {
         unimplemented!()
     }
+    // TagSliceExt::fill_empty on the whole control slice (ptr::write_bytes over num_ctrl_bytes bytes)
+    #[verifier::external_body]
+    pub fn ctrl_fill_empty(&mut self)
+        ensures
+            final(self).ctrl@.len() == old(self).ctrl@.len(),
+            forall|k: int| 0 <= k < old(self).ctrl@.len() ==> #[trigger] final(self).ctrl@[k] == 0xFFu8,
+            final(self).bucket_mask == old(self).bucket_mask,
+            final(self).growth_left == old(self).growth_left,
+            final(self).items == old(self).items,
+            final(self).elems == old(self).elems,
+    {
+        unimplemented!()
+    }
     // ptr::copy between two control pointers (memmove semantics: the source is read before anything is written)
     #[verifier::external_body]
     pub fn ctrl_copy(&mut self, src: usize, dst: usize, count: usize)
